@@ -503,7 +503,10 @@ class Executor:
                         yield s, BoundMethod(base, attr)
                     return
                 if decl is None:
-                    raise Unsupported(f"attribute {ty[1]}.{attr} not in the object model")
+                    # attribute outside the declared object model: read as an untyped pure function of the object (assumption, listed)
+                    self.assumptions.add(f"undeclared attribute {ty[1]}.{attr} read as a pure untyped function of the object")
+                    yield s, self.read_attr(base, attr, ANY, s)
+                    return
                 kind = decl[0]
                 if kind == "attr":
                     yield s, self.read_attr(base, attr, decl[1], s)
